@@ -497,7 +497,7 @@ func (c *CCtx) call(n Call) CVal {
 	case "typed": // typed(term, "*pkg/path.Name"): give an untyped term a Go type
 		tn := n.Args[1].(StrLit).V
 		ptr := strings.HasPrefix(tn, "*")
-		tn = strings.TrimPrefix(tn, "*")
+		tn = expandType(strings.TrimPrefix(tn, "*"))
 		i := strings.LastIndex(tn, ".")
 		pk := c.e.fn.Prog.ImportedPackage(tn[:i])
 		if pk == nil || pk.Type(tn[i+1:]) == nil {
@@ -509,15 +509,23 @@ func (c *CCtx) call(n Call) CVal {
 		}
 		return c.val(arg(0).T, t)
 	case "callres": // callres("callee", k, i): i-th result of the k-th call to callee on this path
-		key := fmt.Sprintf("res:%s#%s.%s", n.Args[0].(StrLit).V, n.Args[1].(IntLit).V, n.Args[2].(IntLit).V)
+		key := fmt.Sprintf("res:%s#%s.%s", c.calleeKey(n.Args[0].(StrLit).V), n.Args[1].(IntLit).V, n.Args[2].(IntLit).V)
 		t, ok := c.st.snaps[key]
 		if !ok {
 			bindFail("callres: %s was not called on this path (guard it with called())", key)
 		}
 		parts := strings.SplitN(t, "\x01", 2)
 		return CVal{T: parts[1], Sort: parts[0]}
+	case "callghost": // callghost("callee", k, "NAME"): ghost result NAME of the k-th call to callee on this path
+		key := fmt.Sprintf("ghost:%s#%s.%s", c.calleeKey(n.Args[0].(StrLit).V), n.Args[1].(IntLit).V, n.Args[2].(StrLit).V)
+		t, ok := c.st.snaps[key]
+		if !ok {
+			bindFail("callghost: %s does not exist on this path", key)
+		}
+		parts := strings.SplitN(t, "\x01", 2)
+		return CVal{T: parts[1], Sort: parts[0]}
 	case "called": // called("callee", k): the k-th call to callee happened on this path
-		key := fmt.Sprintf("res:%s#%s.0", n.Args[0].(StrLit).V, n.Args[1].(IntLit).V)
+		key := fmt.Sprintf("res:%s#%s.0", c.calleeKey(n.Args[0].(StrLit).V), n.Args[1].(IntLit).V)
 		_, ok := c.st.snaps[key]
 		return CVal{T: fmt.Sprint(ok), Sort: "Bool"}
 	case "concat":
@@ -527,6 +535,12 @@ func (c *CCtx) call(n Call) CVal {
 		mt := m.GoT.Underlying().(*types.Map)
 		hd := c.e.sorts.HeapMapDom(c.e.sorts.SortOf(mt.Key()))
 		return CVal{T: fmt.Sprintf("(select (select %s %s) %s)", c.heap(hd), m.T, arg(1).T), Sort: "Bool"}
+	case "oid": // oid("2.5.4.6"): a literal OBJECT IDENTIFIER value
+		lit, ok := n.Args[0].(StrLit)
+		if !ok {
+			bindFail("oid() takes a string literal")
+		}
+		return CVal{T: oidLit(lit.V), Sort: "OidV"}
 	case "unboxRef":
 		return CVal{T: fmt.Sprintf("(unboxRef %s)", arg(0).T), Sort: "Int"}
 	case "deep":
@@ -534,15 +548,15 @@ func (c *CCtx) call(n Call) CVal {
 	case "unboxed": // unboxed(v, "pkg.T"): the concrete value inside an interface whose dynamic type is statically known
 		a := arg(0)
 		bi, ok := c.st.boxed[a.T]
-		if !ok || bi.Typ.String() != n.Args[1].(StrLit).V {
+		if !ok || bi.Typ.String() != expandType(n.Args[1].(StrLit).V) {
 			bindFail("unboxed: dynamic type of %s is not statically %s", a.T, n.Args[1].(StrLit).V)
 		}
 		return c.val(bi.Term, bi.Typ)
 	case "typeis":
 		if bi, ok := c.st.boxed[arg(0).T]; ok { // decided statically
-			return CVal{T: fmt.Sprint(bi.Typ.String() == n.Args[1].(StrLit).V), Sort: "Bool"}
+			return CVal{T: fmt.Sprint(bi.Typ.String() == expandType(n.Args[1].(StrLit).V)), Sort: "Bool"}
 		}
-		tag := "tag_" + sanitize(n.Args[1].(StrLit).V)
+		tag := "tag_" + sanitize(expandType(n.Args[1].(StrLit).V))
 		c.e.declOnce(fmt.Sprintf("(declare-const %s Int)", tag))
 		return CVal{T: fmt.Sprintf("(= (typeof %s) %s)", arg(0).T, tag), Sort: "Bool"}
 	case "deref":
@@ -695,4 +709,38 @@ func (c *CCtx) Lvalue(x Expr) LVal {
 	}
 	bindFail("assigns: %v is not a location", x)
 	return LVal{}
+}
+
+// oidLit renders a dotted OID as a ground term of the OidV datatype.
+func oidLit(dotted string) string {
+	t := "onil"
+	for _, p := range strings.Split(dotted, ".") {
+		t = fmt.Sprintf("(osnoc %s %s)", t, p)
+	}
+	return t
+}
+
+// calleeKey expands the abbreviations gopki/ and generator/ in callee names written in contracts.
+func (c *CCtx) calleeKey(k string) string {
+	if strings.HasPrefix(k, "invoke:") {
+		return "invoke:" + c.calleeKey(strings.TrimPrefix(k, "invoke:"))
+	}
+	for _, pre := range []string{"(*", "(", ""} {
+		if strings.HasPrefix(k, pre+"gopki/") {
+			return pre + modPrefix + "/" + strings.TrimPrefix(k, pre+"gopki/")
+		}
+	}
+	return k
+}
+
+// expandType expands the abbreviation gopki/ in type names written in contracts.
+func expandType(tn string) string {
+	star := ""
+	if strings.HasPrefix(tn, "*") {
+		star, tn = "*", tn[1:]
+	}
+	if strings.HasPrefix(tn, "gopki/") {
+		tn = modPrefix + "/" + strings.TrimPrefix(tn, "gopki/")
+	}
+	return star + tn
 }
